@@ -117,6 +117,12 @@ def render_request(role: str, r: Dict[str, Any], i: int) -> bytes:
     head = method + b' ' + target + b' HTTP/1.1\r\n' + (b'Host: ' + hosth + b'\r\n' if not r.get('no_host') else b'') + b'X-Req: %d\r\n' % i
     if r.get('obs_text'):
         head += b'X-Note: caf\xe9 na\xefve\r\n'      # obs-text octets (latin-1), valid in a field value
+    if body and r.get('chunked'):
+        # the same body in chunked framing (1..3 chunks): every request of the connection has a decoder state of its own
+        from vf.refs import chunk_ref
+        k = min(int(r['chunked']), len(body))
+        sizes = [len(body) // k] * (k - 1) + [len(body) - (len(body) // k) * (k - 1)]
+        return head + b'Transfer-Encoding: chunked\r\n\r\n' + chunk_ref.encode(body, [x for x in sizes if x > 0])
     if body:
         head += b'Content-Length: %d\r\n' % len(body)
     return head + b'\r\n' + body
@@ -296,6 +302,8 @@ def cases(draw: Any, role: str) -> Dict[str, Any]:
         else:
             q['to'] = draw(st.sampled_from(['a', 'a', 'b'] + (['lit'] if role == 'reverse' else [])))
         q['body'] = draw(st.sampled_from([0, 0, 0, 1, 10, 300, 70000]))
+        if q['body'] and draw(st.integers(0, 2)) == 0:
+            q['chunked'] = draw(st.integers(1, 3))
         if role != 'forward' and draw(st.integers(0, 7)) == 0:
             q['no_host'] = True        # origin-form request without a Host field (what an HTTP/1.0-style client sends)
         if draw(st.integers(0, 7)) == 0:
@@ -325,6 +333,8 @@ def run_shard(spec: Dict[str, Any], seed: int, acc: Any) -> None:
     def chk(c: Dict[str, Any]) -> List[Any]:
         vs, info = evaluate(c)
         labs = ['role:' + c['role'], 'pipelined' if c['pipelined'] else 'keep-alive', 'n:%d' % info['n']]
+        if sum(1 for q in c['requests'] if q.get('chunked')) >= 2:
+            labs.append('two-or-more-chunked-requests')
         if c.get('pool'):
             labs.append('conn-pool')
         if c.get('events'):
